@@ -769,7 +769,17 @@ func (p *parser) assignCallee(exp ast.Expression, calleeIdent *ast.Identifier) (
 			p.errors = append(p.errors, msg)
 		}
 	case *ast.CallExpression:
-		ss.Callee = calleeIdent
+		if recv, ok := ss.Callee.(*ast.Identifier); ok && recv != nil {
+			// a.b[i].c.d(): the indexed value is the root of the call's own
+			// receiver chain (c), it does not replace it
+			root := recv
+			for root.Callee != nil {
+				root = root.Callee
+			}
+			root.Callee = calleeIdent
+		} else {
+			ss.Callee = calleeIdent
+		}
 		assignedCallee = ss
 	case *ast.Identifier:
 		ss.OriginalCallee.Callee = calleeIdent
